@@ -301,7 +301,8 @@ func (r *AvPacket2RtmpRemuxer) FeedAvPacket(pkt base.AvPacket) {
 			}
 
 			length := len(pkt.Payload) - 5 // -7+2
-			if length < 7 {
+			if length <= 2 {
+				// 只有adts头(或者连adts头都不完整)，没有aac数据
 				return
 			}
 			payload := make([]byte, length)
